@@ -393,13 +393,15 @@ Fixpoint hist_allb (P : state -> op -> bool) (st : state) (ops : list op) : bool
 
 End Step.
 
-(* the library as it is / with the corrected loop.  After a library fix only `step_cur` needs
-   switching to commit_fixed (checks/C05.py selects the variant from the source text). *)
-Definition step_cur := step commit_loop.
+(* the two variants of req_commit's loop: `head` = as written in the snapshot (over the first
+   num_w_lead_reqs queue entries), `fixed` = over all numLeadPutReqs entries.  checks/C05.py reads the
+   loop bound from the sources as built and ties the matching variant to the library; all theorems
+   are stated for an explicit variant, so nothing here changes when the library is repaired. *)
+Definition step_head := step commit_loop.
 Definition step_fixed := step commit_fixed.
-Definition run_cur := run commit_loop.
+Definition run_head := run commit_loop.
 Definition run_fixed := run commit_fixed.
-Definition trace_cur (n : nat) (n0 : Z) (ops : list op) := trace commit_loop (init n n0) ops.
+Definition trace_head (n : nat) (n0 : Z) (ops : list op) := trace commit_loop (init n n0) ops.
 Definition trace_fixed (n : nat) (n0 : Z) (ops : list op) := trace commit_fixed (init n n0) ops.
 
 (* 1 + highest record index of any write completed so far (0 if none) *)
